@@ -11,6 +11,7 @@ Variable net : Type.
 Variable now : net -> Z.
 Variable set_dl : option Z -> net -> net.
 Variable nread : nat -> net -> rres * net.
+Variable npush : list byte -> net -> net.
 
 Notation st := (st net).
 Notation res := (res net).
@@ -19,10 +20,10 @@ Notation arm := (arm net now set_dl).
 Notation clear := (clear net now set_dl).
 Notation prefetch := (prefetch net nread).
 Notation read_full_st := (read_full_st net nread).
-Notation chain := (chain net now nread).
-Notation pass := (pass net now set_dl nread).
-Notation loop := (loop net now set_dl nread).
-Notation compile := (compile net now set_dl nread).
+Notation chain := (chain net now nread npush).
+Notation pass := (pass net now set_dl nread npush).
+Notation loop := (loop net now set_dl nread npush).
+Notation compile := (compile net now set_dl nread npush).
 
 
 Lemma bind_ext (r : res) k k' : (forall s, k s = k' s) -> bind r k = bind r k'.
@@ -83,8 +84,8 @@ Proof.
     + destruct (read_full_st k s) as [[dta|] s']; [apply IH|reflexivity].
     + reflexivity.
     + apply IH.
-    + rewrite (Hsub (S d) rs timeout (Router.chain net now nread sub d idx hs next)).
-      rewrite (Hsub (S d) rs timeout (Router.chain net now nread sub d idx hs (fun s' => Cont s'))).
+    + rewrite (Hsub (S d) rs timeout (Router.chain net now nread npush sub d idx hs next)).
+      rewrite (Hsub (S d) rs timeout (Router.chain net now nread npush sub d idx hs (fun s' => Cont s'))).
       rewrite bind_assoc. apply bind_ext. intro s'. apply IH.
 Qed.
 
@@ -182,7 +183,7 @@ Proof.
         cbn [proj filter at_level ev_depth]. rewrite Nat.eqb_refl. apply g_herr.
     + exists [EHErr d idx]. cbn [res_st is_cont]. rewrite evs_emit. split; [reflexivity|]. split; [md|]. split; [reflexivity|].
       cbn [proj filter at_level ev_depth]. rewrite Nat.eqb_refl. apply g_herr.
-    + apply IH.
+    + exact (IH _).
     + rewrite (sub_tail (S d) rs0 timeout). destruct (sub_ext (S d) rs0 timeout s) as (own1 & He1 & Hm1).
       destruct (sub (S d) rs0 timeout (fun s' => Cont s') s) as [s1|s1|s1|s1] eqn:ES; cbn [bind]; cbn [res_st] in He1.
       2: { destruct (IH s1) as (own & He & Hm & Hc & Hg). exists (own1 ++ own).
@@ -588,7 +589,7 @@ Proof.
         exists (ERead d idx dta :: own). rewrite He, evs_emit, ER, <- app_assoc. repeat split; auto. constructor; [exact I|exact Hf].
       * exists [EHErr d idx]. cbn [res_st]. rewrite evs_emit, ER. repeat split; auto. repeat constructor.
     + exists [EHErr d idx]. cbn [res_st]. rewrite evs_emit. repeat split; auto. repeat constructor.
-    + apply IH; exact Hok.
+    + apply (IH {| off := 0; avail := []; nt := npush (avail s) (nt s); tr := tr s |}). unfold buf_ok. cbn [off avail length]. lia.
     + rewrite (sub_tail (S d) rs timeout). destruct (sub_buf (S d) rs timeout s Hok) as (own1 & He1 & Hf1 & Hb1).
       destruct (sub (S d) rs timeout (fun s' => Cont s') s) as [s1|s1|s1|s1] eqn:ES; cbn [bind]; cbn [res_st] in He1, Hb1.
       2: { destruct (IH s1 Hb1) as (own & He & Hf & Hb). exists (own1 ++ own). rewrite He, He1, <- app_assoc.
@@ -657,12 +658,14 @@ Proof.
     { unfold s3. destruct (last_exit_clears && _); [exists [EClear]; rewrite evs_clear; repeat split; auto; repeat constructor|exists []; rewrite app_nil_r; auto]. }
     destruct Hs3 as (c & Hec & Hfc & Hb3).
     exists ([EArm] ++ own ++ c ++ [EFallback d (avail s3)]). cbn [res_st]. rewrite evs_emit, Hec, He, Hes', <- !app_assoc.
-    repeat split; auto. constructor; [exact I|]. repeat apply Forall_app; auto. constructor; [apply buf_ok_avail; exact Hb3|constructor]. }
+    repeat split; auto. constructor; [exact I|]. apply Forall_app; split; [exact Hf|]. apply Forall_app; split; [exact Hfc|].
+    constructor; [apply buf_ok_avail; exact Hb3|constructor]. }
   destruct (undecided (length rs) lm' stt').
   { destruct (IH lm' lnm' stt' true s'' Hb) as (own2 & He2 & Hf2 & Hb2).
     exists ([EArm] ++ own ++ own2). rewrite He2, He, Hes', <- !app_assoc. repeat split; auto. constructor; [exact I|]. apply Forall_app; auto. }
   exists ([EArm] ++ own ++ [EClear; EFallback d (avail (clear s''))]). cbn [res_st]. rewrite evs_emit, evs_clear, He, Hes', <- !app_assoc.
-  repeat split; auto. constructor; [exact I|]. apply Forall_app; auto. constructor; [exact I|constructor; [apply buf_ok_avail; exact Hb|constructor]].
+  repeat split; auto. constructor; [exact I|]. apply Forall_app; split; [exact Hf|].
+  constructor; [exact I|constructor; [apply buf_ok_avail; exact Hb|constructor]].
 Qed.
 End Level.
 
@@ -725,7 +728,7 @@ Proof.
         intro Hcont. destruct (Hc Hcont) as [H1 H2]. split; [exact H1|]. intros e [<-|Hin]; [reflexivity|apply H2; exact Hin].
       * exists [EHErr d idx]. cbn [res_st is_cont]. rewrite evs_emit, ER. split; [reflexivity|]. cbn. repeat split; auto; discriminate.
     + exists [EHErr d idx]. cbn [res_st is_cont]. rewrite evs_emit. split; [reflexivity|]. cbn. repeat split; auto; discriminate.
-    + apply IH.
+    + exact (IH _).
     + rewrite (sub_tail (S d) rs timeout). destruct (sub_w (S d) rs timeout s false) as (own1 & He1 & Hh1 & Hd1 & Hc1).
       destruct (sub (S d) rs timeout (fun s' => Cont s') s) as [s1|s1|s1|s1] eqn:ES; cbn [bind]; cbn [res_st is_cont] in *.
       2: { destruct (Hc1 eq_refl) as [Ha1 Hn1]. destruct (IH s1) as (own & He & Hh & Hd & Hc).
@@ -766,14 +769,14 @@ Proof.
            specialize (IH (S i) (Some i) (Some i) (setst stt i SYes) nm s2 false).
            destruct (pass sub d (S i) rest (Some i) (Some i) (setst stt i SYes) nm s2) as [r|lm' lnm' stt' s']; cbn [pass_w_post] in *.
            - destruct IH as (own & He & Hh & Hd). exists (([EClear; ERun d i (avail s)] ++ ownc) ++ own).
-             rewrite He, Hec, Hs1, <- !app_assoc. split; [reflexivity|].
+             split; [rewrite He, Hec, Hs1, <- !app_assoc; reflexivity|].
              split; [apply hu_app; [exact Hhead|cbn; rewrite Hac; exact Hh]|].
              apply drop_last_app; [|exact Hd]. apply nodrops_app; [nd|exact Hnc].
            - destruct IH as (own & He & Hh & Hn & Ha). exists (([EClear; ERun d i (avail s)] ++ ownc) ++ own).
-             rewrite He, Hec, Hs1, <- !app_assoc. split; [reflexivity|].
+             split; [rewrite He, Hec, Hs1, <- !app_assoc; reflexivity|].
              split; [apply hu_app; [exact Hhead|cbn; rewrite Hac; exact Hh]|].
              split; [apply nodrops_app; [apply nodrops_app; [nd|exact Hnc]|exact Hn]|].
-             left. rewrite app_assoc, armed_after_app. cbn [app armed_after]. rewrite Hac. destruct Ha as [Ha|[_ Ha]]; exact Ha. }
+             left. rewrite !armed_after_app. cbn [armed_after]. rewrite Hac. destruct Ha as [Ha|[_ Ha]]; exact Ha. }
       all: cbn [pass_w_post res_st]; exists ([EClear; ERun d i (avail s)] ++ ownc); rewrite Hec, Hs1, <- app_assoc;
         (split; [reflexivity|]); (split; [exact Hhead|]); cbn; (split; [discriminate|]); (split; [discriminate|exact Hdc]).
     + apply IH.
@@ -806,7 +809,7 @@ Proof.
     assert (Hs3 : exists c, evs s3 = evs s'' ++ c /\ (c = [] \/ c = [EClear]) /\ armed_after (armed_after true own) c = false).
     { unfold s3. destruct Ha as [Ha|[-> Ha]].
       - destruct (last_exit_clears && _); [exists [EClear]; rewrite evs_clear; auto|exists []; rewrite app_nil_r; auto].
-      - destruct lm as [j|]; [cbn in HP; rewrite HP in Eexit; discriminate|]. rewrite Hflag. cbn. exists [EClear]. rewrite evs_clear. auto. }
+      - destruct lm as [j|]; [unfold not_exit in HP; rewrite HP in Eexit; discriminate|]. rewrite Hflag. cbn [andb]. exists [EClear]. rewrite evs_clear. rewrite Ha. auto. }
     destruct Hs3 as (c & Hec & Hc & Hac).
     exists ((EArm :: own) ++ c ++ [EFallback d (avail s3)]). cbn [res_st is_cont]. rewrite evs_emit, Hec, He, Hes', <- !app_assoc. split; [reflexivity|].
     assert (Hnc : nodrops c) by (destruct Hc as [->| ->]; nd).
@@ -923,6 +926,63 @@ Proof.
   rewrite H0 in Hc. destruct (is_cont r); [discriminate|reflexivity].
 Qed.
 End Top.
+
+Lemma own_evs_eq (s : st) (r : res) own : evs (res_st r) = evs s ++ own -> own_evs s r = own.
+Proof. intro H. unfold own_evs. rewrite H, skipn_app, skipn_all, Nat.sub_diag. reflexivity. Qed.
+
+(* C05: the matching buffer never holds more than MaxMatchingBytes - 1 + prefetchChunkSize bytes *)
+Lemma c05_buffer_bounded fuel d rs t s :
+  1 <= MAXB -> (forall m n dta n', nread m n = (RData dta, n') -> length dta <= m) -> buf_ok s ->
+  buf_ok (res_st (compile fuel d rs t (fun s' => Cont s') s)) /\
+  Forall ev_buf_ok (own_evs s (compile fuel d rs t (fun s' => Cont s') s)).
+Proof.
+  intros H1 Hlen Hok. destruct (compile_buf H1 Hlen fuel d rs t s Hok) as (own & He & Hf & Hb).
+  rewrite (own_evs_eq _ _ _ He). auto.
+Qed.
+
+(* C05: handlers and fallbacks start with the deadline cleared; a drop is the last event of the whole run *)
+Lemma c05_shape fuel d rs t s a : last_exit_clears = true ->
+  hu a (own_evs s (compile fuel d rs t (fun s' => Cont s') s)) /\
+  drop_last (own_evs s (compile fuel d rs t (fun s' => Cont s') s)) /\
+  (is_cont (compile fuel d rs t (fun s' => Cont s') s) = true ->
+     armed_after a (own_evs s (compile fuel d rs t (fun s' => Cont s') s)) = false /\
+     nodrops (own_evs s (compile fuel d rs t (fun s' => Cont s') s))).
+Proof.
+  intro Hf. destruct (compile_w Hf fuel d rs t s a) as (own & He & Hh & Hd & Hc).
+  rewrite (own_evs_eq _ _ _ He). auto.
+Qed.
+
+Lemma hu_split a l : hu a l -> forall pre e post, l = pre ++ e :: post -> is_hev e = true -> armed_after a pre = false.
+Proof.
+  revert a. induction l as [|x l IH]; intros a H pre e post Hl He.
+  - destruct pre; discriminate.
+  - destruct pre as [|y pre]; cbn [app] in Hl; inversion Hl; subst.
+    + cbn. apply H. exact He.
+    + destruct H as [_ H]. rewrite armed_after_step. cbn [fold_left]. rewrite <- armed_after_step. eapply IH; eauto.
+Qed.
+Lemma drop_last_split l : drop_last l -> forall pre e post, l = pre ++ e :: post -> is_anydrop e = true -> post = [].
+Proof.
+  induction l as [|x l IH]; intros H pre e post Hl He.
+  - destruct pre; discriminate.
+  - destruct pre as [|y pre]; cbn [app] in Hl; inversion Hl; subst.
+    + apply H. exact He.
+    + destruct H as [_ H]. eapply IH; eauto.
+Qed.
+
+(* C05, in the form stated in props/C05.v *)
+Lemma c05_deadline_cleared_before_handlers fuel d rs t s a pre e post : last_exit_clears = true ->
+  own_evs s (compile fuel d rs t (fun s' => Cont s') s) = pre ++ e :: post -> is_hev e = true ->
+  armed_after a pre = false.
+Proof. intros Hf Ho He. destruct (c05_shape fuel d rs t s a Hf) as (Hh & _). eapply hu_split; eauto. Qed.
+
+Lemma c05_drop_ends_everything fuel d rs t s pre e post : last_exit_clears = true ->
+  own_evs s (compile fuel d rs t (fun s' => Cont s') s) = pre ++ e :: post -> is_anydrop e = true ->
+  post = [] /\ is_cont (compile fuel d rs t (fun s' => Cont s') s) = false.
+Proof.
+  intros Hf Ho He. destruct (c05_shape fuel d rs t s false Hf) as (_ & Hd & Hc). split; [eapply drop_last_split; eauto|].
+  destruct (is_cont _) eqn:E; [|reflexivity]. destruct (Hc eq_refl) as [_ Hn].
+  rewrite (Hn e) in He; [discriminate|]. rewrite Ho. apply in_or_app. right. left. reflexivity.
+Qed.
 
 (* the continuation is applied exactly once, to the state the invocation ends in, iff the fallback ran *)
 Lemma c02_next_once fuel d rs t next s :
